@@ -95,7 +95,9 @@ def make_value(I, name, typ, tenv, assume_inv=True):
         n = z3.Int(name + ".len")
         ctx.inputs[name] = ("bytes", arr, n)
         ctx.fact(n >= 0)
-        return SBytes((SL(arr, z3.IntVal(0), n),), mutable=(typ == "bytearray"))
+        sl = SL(arr, z3.IntVal(0), n)
+        ctx.len_syms.append([name + ".len", [sl], False])
+        return SBytes((sl,), mutable=(typ == "bytearray"))
     m = re.fullmatch(r"(bytes|bytearray)\[(\d+)\]", typ)
     if m:
         arr = z3.Array(name, z3.IntSort(), z3.IntSort())
@@ -108,7 +110,9 @@ def make_value(I, name, typ, tenv, assume_inv=True):
         n = z3.Int(name + ".len")
         ctx.inputs[name] = ("bytes", arr, n)
         ctx.fact(z3.And(n >= int(m.group(1)), n <= int(m.group(2))))
-        return SBytes((SL(arr, z3.IntVal(0), n),))
+        sl = SL(arr, z3.IntVal(0), n)
+        ctx.len_syms.append([name + ".len", [sl], False])
+        return SBytes((sl,))
     if typ == "stream":
         arr = z3.Array(name + ".buf", z3.IntSort(), z3.IntSort())
         n = z3.Int(name + ".len")
@@ -116,6 +120,13 @@ def make_value(I, name, typ, tenv, assume_inv=True):
         ctx.inputs[name] = ("stream", arr, n, p)
         ctx.fact(z3.And(n >= 0, p >= 0, p <= n))
         return SStream(SBytes((SL(arr, z3.IntVal(0), n),)), SInt(p), name)
+    if typ == "datetime":
+        # aware datetime with whole seconds, as a POSIX timestamp (stated assumption: block
+        # times are whole seconds; sub-second times are a separate finding, see DESIGN 6)
+        t = z3.Int(name)
+        ctx.inputs[name] = ("int", t)
+        ctx.fact(z3.And(t >= 0, t < 2 ** 40))
+        return Opaque("datetime", t)
     if typ == "str":
         return Opaque("str")
     if typ == "any":
@@ -264,6 +275,7 @@ class Contract:
         self.posts = []
         self.raises = []       # (exc name, mode, clause)
         self.model = None
+        self.splits = []       # complete finite case splits (expr, lo, hi)
         self.invs = {}         # ordinal -> [clause]
         self.decs = {}
         for mname, fi in ci.methods.items():
@@ -274,6 +286,8 @@ class Contract:
                 self.model = cl
             elif mname.startswith("post"):
                 self.posts.append(cl)
+            elif mname.startswith("split"):
+                self.splits.append(cl)
             elif mname.startswith("raises_"):
                 rest = mname[len("raises_"):]
                 mode = "iff"
@@ -552,7 +566,8 @@ class ContractSet:
 
     def __init__(self, world, module_names):
         self.world = world
-        self.contracts = {}      # target fullname -> Contract
+        self.contracts = {}      # target fullname -> Contract used at call sites
+        self.by_name = {}        # contract class name -> Contract (several may share a target)
         self.lemmas = []         # (name, FuncInfo, types, options)
         self.shapes = {}
         for mn in module_names:
@@ -566,12 +581,14 @@ class ContractSet:
                 if e["kind"] == "contract":
                     ci = mi.classes[e["name"]]
                     c = Contract(e, ci, world)
-                    self.contracts[c.target] = c
+                    self.by_name[f"{mn}:{c.name}"] = c
+                    if c.target not in self.contracts or (c.usable_at_call() and not self.contracts[c.target].usable_at_call()):
+                        self.contracts[c.target] = c
                 elif e["kind"] == "lemma":
                     self.lemmas.append((e["target"], mi.funcs[e["name"]], e["types"], e["options"]))
                 elif e["kind"] == "shape":
                     ci = mi.classes[e["name"]]
-                    tgt = world.find(e["target"])
+                    tgt = world.find(e["target"].split("#")[0])
                     if not isinstance(tgt, ClassInfo):
                         raise RuntimeError(f"shape target {e['target']} is not a class")
                     self.shapes[e["target"]] = Shape(e["target"], e["fields"], tgt, ci.methods.get("inv"), e["options"])
@@ -580,7 +597,7 @@ class ContractSet:
 
     def loop_hooks(self):
         hooks = {}
-        for c in self.contracts.values():
+        for c in self.by_name.values():
             for k in set(c.invs) | set(c.decs):
                 hooks[(c.target, k)] = LoopHook(c, k)
         return hooks
